@@ -142,6 +142,8 @@ func arrayGetReverse(ar *Array) (r.Element, error) {
 
 // setters
 func arraySetFirstItem(ar *Array, value r.Element) error {
+	// store a copy ('copycat by default' - also avoids that a list contains itself)
+	value = DuplicateValue(value)
 	if len(ar.value) == 0 {
 		result := []r.Element{value}
 		ar.value = result
@@ -152,6 +154,8 @@ func arraySetFirstItem(ar *Array, value r.Element) error {
 }
 
 func arraySetLastItem(ar *Array, value r.Element) error {
+	// store a copy ('copycat by default' - also avoids that a list contains itself)
+	value = DuplicateValue(value)
 	if len(ar.value) == 0 {
 		result := []r.Element{value}
 		ar.value = result
@@ -297,6 +301,8 @@ func arrayExecSwap(ar *Array, values []r.Element) (r.Element, error) {
 // //// method handlers
 func insertArrayValue(target []r.Element, idx int, insertItem r.Element) []r.Element {
 	var result []r.Element
+	// store a copy ('copycat by default' - also avoids that a list contains itself)
+	insertItem = DuplicateValue(insertItem)
 
 	if idx >= len(target) {
 		result = append(target, insertItem)
